@@ -648,6 +648,77 @@ def explore(ctx):
                                      distinct_inputs=len(total['distinct']),
                                      property_deviations={k: v for k, v in total['nfind'].items()})
     ctx.samples = total['samples'][:6]
+    sessions(ctx)
+
+
+def _outcome(f, *a):
+    try:
+        return ('ok', f(*a))
+    except KeyError:
+        return ('key',)
+    except OverflowError:
+        return ('overflow',)
+    except Exception as ex:  # any other escaping exception is itself a violation
+        return ('other', type(ex).__name__)
+
+
+def sessions(ctx):
+    """History dimension: ONE long-lived parser whose label table, radix and width are changed in
+    place between calls (as the monitor does); every answer must equal the answer of a freshly
+    built parser with the current table/radix/width (parsing is a function of the current
+    configuration, not of what was parsed before)."""
+    AP = _parser_cls()
+    rng = random.Random('c15-sessions-%d' % ctx.seed)
+    n_sess = 400 if ctx.quick() else 8000
+    names = ['foo', 'bar', 'a', 'loop', 'x1', 'f', 'ff', 'b', 'c000']
+    n_calls = 0
+    for si in range(n_sess):
+        width = rng.choice([16, 24, 32])
+        radix = rng.choice([16, 10, 8, 2])
+        labels = {}
+        live = AP(maxwidth=width, radix=radix, labels={})
+        script = ['width %d' % width, 'radix %d' % radix]
+        for step in range(rng.randrange(3, 25)):
+            r = rng.random()
+            if r < 0.25:
+                k, v = rng.choice(names), rng.randrange(1 << 16)
+                live.labels[k] = v
+                labels[k] = v
+                script.append('label %s=%d' % (k, v))
+            elif r < 0.33 and labels:
+                k = rng.choice(sorted(labels))
+                del live.labels[k]
+                del labels[k]
+                script.append('del %s' % k)
+            elif r < 0.40:
+                radix = rng.choice([16, 10, 8, 2])
+                live.radix = radix
+                script.append('radix %d' % radix)
+            elif r < 0.45:
+                width = rng.choice([16, 24, 32])
+                live.maxwidth = width
+                script.append('width %d' % width)
+            else:
+                base = rng.choice(names)
+                off = rng.choice(['0', '1', '10', '$1f', '+9', '%101', 'ff', 'F'])
+                text = rng.choice([base, '%s+%s' % (base, off), '%s - %s' % (base, off), '$%x' % rng.randrange(1 << 20),
+                                   off, '%s:%s' % (base, off)])
+                use_range = ':' in text or rng.random() < 0.15
+                fresh = AP(maxwidth=width, radix=radix, labels=dict(labels))
+                got = _outcome(live.range if use_range else live.number, text)
+                exp = _outcome(fresh.range if use_range else fresh.number, text)
+                n_calls += 1
+                script.append('%s %r' % ('range' if use_range else 'number', text))
+                if got != exp:
+                    ctx.findings.append(dict(
+                        key=dict(kind='history-dependence'),
+                        what='same parser, after %d earlier operations: %s(%r) gives %r but a fresh parser with the same labels/radix/width gives %r'
+                             % (len(script) - 1, 'range' if use_range else 'number', text, got, exp),
+                        replay=dict(session=script, got=list(got), expected=list(exp))))
+                    break
+    ctx.stats['evaluations'] += n_calls
+    ctx.stats.setdefault('distribution', {})['session_calls'] = n_calls
+    ctx.note('sessions: %d long-lived parsers, %d calls compared with fresh parsers' % (n_sess, n_calls))
 
 
 def replay(ctx, path):
@@ -657,6 +728,29 @@ def replay(ctx, path):
     if not rp:
         print(json.dumps(obj, indent=1)[:3000])
         return 0
+    if 'session' in rp:
+        AP = _parser_cls()
+        live = AP(maxwidth=16, radix=16, labels={})
+        labels, width, radix = {}, 16, 16
+        bad = False
+        for line in rp['session']:
+            w = line.split(' ', 1)
+            if w[0] == 'label':
+                k, v = w[1].split('='); live.labels[k] = int(v); labels[k] = int(v)
+            elif w[0] == 'del':
+                del live.labels[w[1]]; del labels[w[1]]
+            elif w[0] == 'radix':
+                radix = int(w[1]); live.radix = radix
+            elif w[0] == 'width':
+                width = int(w[1]); live.maxwidth = width
+            else:
+                text = eval(w[1])
+                fresh = AP(maxwidth=width, radix=radix, labels=dict(labels))
+                got = _outcome(getattr(live, w[0]), text)
+                exp = _outcome(getattr(fresh, w[0]), text)
+                print('%-28s live=%r fresh=%r%s' % (line, got, exp, '   <-- DIFF' if got != exp else ''))
+                bad = bad or got != exp
+        return 1 if bad else 0
     c = rp['case']
     if c[0] in ('num', 'rng'):
         c = (c[0], c[1], c[2], tuple(tuple(x) for x in c[3]), c[4])
